@@ -361,6 +361,21 @@ func (x *Exec) contractCall(fr *Frame, st *State, ins ssa.Instruction, c *Contra
 			x.oblige(fr, "requires@call", fmt.Sprintf("%s pre %d: %s", c.Key, i+1, cl.Orig), st, t, pos)
 		}
 	}
+	if vc.noName > 0 {
+		// inside a quantifier body only pure functions may be called: the result is the
+		// function's uninterpreted symbol applied to the arguments; its postconditions are
+		// not instantiated here (they are at every call outside a binder).
+		if !c.Pure {
+			panic(engErr("call of non-pure %s inside quantifier body", c.Key))
+		}
+		sig := c.Fn.Signature
+		var results []Term
+		for i := 0; i < sig.Results().Len(); i++ {
+			results = append(results, x.pureResult(c, i, args, sig.Results().At(i).Type(), st))
+		}
+		x.setResult(fr, res, sig, results)
+		return
+	}
 	pre := st.clone()
 	// 2. frame
 	if !c.Pure && !fr.spec {
